@@ -69,6 +69,7 @@ REGIONS = {
     'renege_jockey': dict(renege=1.0, routers=1.0, jockey=True, block=0.6),
     'preempt_deep': dict(prio=1.0, preempt=1.0, noblock=True, deep=True),
     'jsq_preempt': dict(routers=1.0, jsq=True, prio=1.0, preempt=1.0, noblock=True, multiclass=True),
+    'jsq_sched': dict(routers=1.0, jsq=True, sched=1.0, noblock=True),     # join-shortest-queue towards nodes with (non-pre-emptive) Schedules
     'sched_split': dict(sched=1.0, noblock=True, split=True),      # the run is made in several calls (pauses inside services / overtime)
     'core_split': dict(split=True),
     # a pre-emptive Schedule (with zero-server shifts) feeding a small finite node: blocked customers meet shift changes
